@@ -212,8 +212,36 @@ func (r *Run) NumViolations() int {
 	return len(r.violations)
 }
 
+// racePass folds the result of the separate free-running -race pass (run by bin/check before the harness) into the run.
+func (r *Run) racePass() {
+	res := os.Getenv("VERIF_RACE_RESULT")
+	if res == "" {
+		return
+	}
+	parts := strings.SplitN(res, ":", 3)
+	n, _ := strconv.ParseInt(func() string {
+		if len(parts) > 1 {
+			return parts[1]
+		}
+		return "0"
+	}(), 10, 64)
+	switch parts[0] {
+	case "ok":
+		r.AddPart(Part{Name: "free-running -race pass", Engine: "go test -race (real goroutines, real sync)", Bound: "samples schedules; supplements the controlled exploration, decides nothing", Executions: n, Exhaustive: true, Note: "no data race reported, end-state invariants held"})
+	case "fail":
+		log := ""
+		if len(parts) > 2 {
+			log = parts[2]
+		}
+		r.Violation(Violation{Part: "free-running -race pass", Kind: "data-race-or-invariant", Site: "race detector", Detail: "the free-running -race pass reported a data race or a failed end-state invariant; log: " + log})
+	case "buildfail":
+		r.HarnessError("-race build of the harness failed")
+	}
+}
+
 // Finish writes evidence + replay files, prints verdict lines and returns the exit code.
 func (r *Run) Finish() int {
+	r.racePass()
 	r.mu.Lock()
 	defer r.mu.Unlock()
 	wall := time.Since(r.start).Seconds()
